@@ -269,6 +269,8 @@ def case_kernel_meaning(case):
         k = KCLS[kname](operands=[b.args[i] for i in wiring] if wiring else list(b.args[:-1]), result_types=[tys[-1]])
         if post is None:
             b.add_ops([k, linalg.YieldOp(k)])
+        elif post == "yield_out":
+            b.add_ops([k, linalg.YieldOp(b.args[-1])])  # the kernel op is dead: the body returns the output element unchanged
         else:
             p = {"muli_self": arith.MuliOp, "addi_self": arith.AddiOp, "subi_acc": arith.SubiOp}[post](k.results[0], b.args[-1] if post == "subi_acc" else k.results[0])
             b.add_ops([k, p, linalg.YieldOp(p)])
@@ -299,6 +301,8 @@ def case_kernel_meaning(case):
             return r + r
         if post == "subi_acc":
             return r - a[-1]
+        if post == "yield_out":
+            return a[-1]
         return r
 
     def h_kernel(I, op):
@@ -314,7 +318,7 @@ def case_kernel_meaning(case):
         E = eng()
         if post is None and wiring is None:
             E.oblige("expansion:no_kernel_left", z3.BoolVal(not [o for o in g.body.block.ops if o.name.startswith("kernel.")]))
-        E.oblige(f"expansion:computes_kernel_meaning|kernel={kname}" + ("|fused_body" if post else "") + ("|operands_not_the_block_arguments_in_order" if wiring else ""),
+        E.oblige(f"expansion:computes_kernel_meaning|kernel={kname}" + ("|body_does_not_yield_the_kernel_result" if post == "yield_out" else "|fused_body" if post else "") + ("|operands_not_the_block_arguments_in_order" if wiring else ""),
                  got == full(args), dict(expanded=body_text(g.body.block), fused=post, wiring=wiring))
 
     def replay(f):
@@ -780,6 +784,7 @@ def run(chk):
     # kernel op with an operation fused behind it in the same body (the body is not just the kernel)
     kcases += [(k, (w, w, w), p) for k in ("mul", "add", "mac") for w in (8, 32) for p in ("muli_self", "addi_self", "subi_acc")]
     kcases += [("qmac", (8, 8, 32, 32, 32), p) for p in ("muli_self", "subi_acc")] + [("mac", (8, 8, 32), "muli_self")]
+    kcases += [(k, (w, w, w), "yield_out") for k in ("mul", "add", "mac") for w in (8, 32)]
     # kernel ops whose operands are not the block arguments in order (the same one twice, swapped, the accumulator as a factor)
     for w in (8, 32):
         kcases += [(k, (w, w, w), None, wr) for k in ("mul", "add", "mac") for wr in ((0, 0), (1, 0), (1, 1), (2, 0))]
